@@ -74,14 +74,55 @@ impl<A: Cx> Drv<A> {
         A::items().map(|x| x.to_bits()).collect()
     }
 
+    /// n symbol codes.  Mostly uniform; sometimes built from RUNS of one symbol (lowest, highest
+    /// or random code: whole words of zeros / ones, long homopolymers) or periodic with a short
+    /// period, so that value patterns -- not only lengths -- vary.
     pub fn rand_syms(&mut self, n: usize) -> Vec<u8> {
         let c = self.codes();
-        (0..n).map(|_| *self.rng.pick(&c)).collect()
+        let lo = *c.iter().min().unwrap();
+        let hi = *c.iter().max().unwrap();
+        match self.rng.below(8) {
+            0 | 1 => {
+                let mut v = Vec::with_capacity(n);
+                while v.len() < n {
+                    let longrun = self.rng.chance(1, 3);
+                    let run = 1 + self.rng.below(if longrun { 70 } else { 9 });
+                    let x = match self.rng.below(4) {
+                        0 => lo,
+                        1 => hi,
+                        _ => *self.rng.pick(&c),
+                    };
+                    for _ in 0..run.min(n - v.len()) {
+                        v.push(x);
+                    }
+                }
+                v
+            }
+            2 => {
+                let period = 2 + self.rng.below(4);
+                let unit: Vec<u8> = (0..period).map(|_| *self.rng.pick(&c)).collect();
+                (0..n).map(|i| unit[i % period]).collect()
+            }
+            _ => (0..n).map(|_| *self.rng.pick(&c)).collect(),
+        }
     }
 
-    /// random valid text of n symbols
+    /// random valid text of n symbols (same value-pattern styles as rand_syms)
     pub fn rand_text(&mut self, n: usize) -> Vec<u8> {
-        (0..n).map(|_| *self.rng.pick(A::ALPHABET)).collect()
+        match self.rng.below(6) {
+            0 => {
+                let mut v = Vec::with_capacity(n);
+                while v.len() < n {
+                    let run = 1 + self.rng.below(40);
+                    let x = *self.rng.pick(A::ALPHABET);
+                    for _ in 0..run.min(n - v.len()) {
+                        v.push(x);
+                    }
+                }
+                v
+            }
+            _ => (0..n).map(|_| *self.rng.pick(A::ALPHABET)).collect(),
+        }
     }
 
     /// a random in-bounds range step of any of the seven forms over a sequence of length n
@@ -114,6 +155,119 @@ impl<A: Cx> Drv<A> {
             path.push(st);
         }
         json!({"base": "reg", "r": r, "path": path})
+    }
+
+    /// Build register `dst` so that it holds exactly `content`, through a randomly chosen
+    /// PRODUCTION (several public calls): the same content reached by parsing, collecting, truncating,
+    /// draining, reversing twice, copying out of an offset window, splicing, serde, a raw image, ...
+    /// Registers 13..=15 are scratch.  The later observations of a scenario are then made on values
+    /// with very different histories (interactions between features).
+    pub fn produce(&mut self, dst: usize, content: &[u8]) {
+        let n = content.len();
+        let c = A::NAME;
+        let comp = matches!(c, "dna" | "iupac" | "mdna" | "miupac" | "degen");
+        let filler = self.codes()[0];
+        let pick = self.rng.below(15);
+        match pick {
+            0 => {
+                let text: Vec<u8> = content.iter().map(|&x| crate::world::sym::<A>(x).to_char() as u8).collect();
+                if text.iter().all(|b| b.is_ascii()) {
+                    self.emit(json!({"op": "parse", "dst": dst, "c": c, "entry": "str", "bytes": text}));
+                } else {
+                    self.emit(json!({"op": "fromsyms", "dst": dst, "c": c, "via": "iter", "syms": content}));
+                }
+            }
+            1 => {
+                let mut v = content.to_vec();
+                let extra = self.rng.range(1, 70);
+                v.extend(self.rand_syms(extra));
+                self.emit(json!({"op": "fromsyms", "dst": dst, "c": c, "via": "vec", "syms": v}));
+                self.emit(json!({"op": "truncate", "dst": dst, "n": n}));
+            }
+            2 => {
+                let k = self.rng.range(1, 70);
+                let mut v = self.rand_syms(k);
+                v.extend_from_slice(content);
+                self.emit(json!({"op": "fromsyms", "dst": dst, "c": c, "via": "iter", "syms": v}));
+                self.emit(json!({"op": "remove", "dst": dst, "range": step("rt", 0, k)}));
+            }
+            3 => {
+                let r: Vec<u8> = content.iter().rev().copied().collect();
+                self.emit(json!({"op": "fromsyms", "dst": dst, "c": c, "via": "iter", "syms": r}));
+                self.emit(json!({"op": "inplace", "dst": dst, "t": "rev"}));
+            }
+            4 if comp => {
+                // the complement is an involution: complement what the spec says is the complement
+                self.emit(json!({"op": "fromsyms", "dst": 15, "c": c, "via": "iter", "syms": content}));
+                self.emit(json!({"op": "copying", "dst": dst, "src": whole(15), "t": "comp", "via": "seq"}));
+                self.emit(json!({"op": "inplace", "dst": dst, "t": "comp"}));
+            }
+            5 => {
+                let a = self.rng.range(1, 67);
+                let mut v = self.rand_syms(a);
+                v.extend_from_slice(content);
+                v.push(filler);
+                self.emit(json!({"op": "fromsyms", "dst": 15, "c": c, "via": "iter", "syms": v}));
+                let via = *self.rng.pick(&["to_owned", "from", "into", "collect"]);
+                self.emit(json!({"op": "toowned", "dst": dst, "src": sl(15, a, a + n), "via": via}));
+            }
+            6 => {
+                let h = n / 2;
+                self.emit(json!({"op": "fromsyms", "dst": dst, "c": c, "via": "iter", "syms": content[..h]}));
+                let a = self.rng.range(0, 40);
+                let mut v = self.rand_syms(a);
+                v.extend_from_slice(&content[h..]);
+                self.emit(json!({"op": "fromsyms", "dst": 15, "c": c, "via": "iter", "syms": v}));
+                self.emit(json!({"op": "append", "dst": dst, "src": sl(15, a, a + n - h)}));
+            }
+            7 if n >= 3 => {
+                let a = n / 3;
+                let b = 2 * n / 3;
+                let mut rest = content[..a].to_vec();
+                rest.extend_from_slice(&content[b..]);
+                self.emit(json!({"op": "fromsyms", "dst": dst, "c": c, "via": "iter", "syms": rest}));
+                self.emit(json!({"op": "fromsyms", "dst": 15, "c": c, "via": "iter", "syms": content[a..b]}));
+                self.emit(json!({"op": "insert", "dst": dst, "i": a, "src": whole(15)}));
+            }
+            8 => {
+                self.emit(json!({"op": "fromsyms", "dst": 15, "c": c, "via": "iter", "syms": content}));
+                let fmt = *self.rng.pick(&crate::scen::c18::FORMATS);
+                self.emit(json!({"op": "serde", "dst": dst, "r": 15, "fmt": fmt}));
+            }
+            9 => {
+                self.emit(json!({"op": "fromsyms", "dst": 15, "c": c, "via": "iter", "syms": content}));
+                let o = self.emit(json!({"op": "intoraw", "r": 15}));
+                self.emit(json!({"op": "fromraw", "dst": dst, "c": c, "n": n, "limbs": o["limbs"]}));
+            }
+            10 => {
+                self.emit(json!({"op": "fromsyms", "dst": 15, "c": c, "via": "iter", "syms": content}));
+                self.emit(json!({"op": "clone", "dst": dst, "r": 15}));
+            }
+            11 => {
+                let cap = self.rng.range(0, 2 * n + 3);
+                self.emit(json!({"op": "new", "dst": dst, "c": c, "via": "withcap", "cap": cap}));
+                let h = self.rng.range(0, n);
+                self.emit(json!({"op": "extend", "dst": dst, "syms": content[..h]}));
+                for &x in &content[h..(h + 3).min(n)] {
+                    self.emit(json!({"op": "push", "dst": dst, "x": x}));
+                }
+                if h + 3 < n {
+                    self.emit(json!({"op": "extend", "dst": dst, "syms": content[h + 3..], "adaptor": "filter", "junk": 3, "via": "trait"}));
+                }
+            }
+            12 if c == "iupac" => {
+                self.emit(json!({"op": "fromsyms", "dst": 15, "c": c, "via": "iter", "syms": content}));
+                let t = *self.rng.pick(&["or", "and"]);
+                self.emit(json!({"op": "bitop", "dst": dst, "x": whole(15), "y": whole(15), "t": t, "via": "ref"}));
+            }
+            13 => {
+                let adaptor = *self.rng.pick(&ADAPTORS);
+                self.emit(json!({"op": "fromsyms", "dst": dst, "c": c, "via": "loosecollect", "adaptor": adaptor, "junk": 4, "syms": content}));
+            }
+            _ => {
+                self.emit(json!({"op": "fromsyms", "dst": dst, "c": c, "via": "iter", "syms": content}));
+            }
+        }
     }
 
     pub fn obs(&mut self, src: Value) -> Value {
